@@ -259,5 +259,6 @@ class MultipartDecoder:
 def safe_decode(src: Union[bytes, bytearray], charset: str) -> str:
     try:
         return src.decode(charset)
-    except (UnicodeDecodeError, LookupError):
+    except (ValueError, LookupError):
+        # ValueError covers UnicodeDecodeError and what else a codec raises
         return src.decode("latin-1")
